@@ -44,6 +44,10 @@ func init() {
 		c01Chronicler(fs)
 		c01ApiValidation(fs)
 		c01OpenExisting(fs, wr)
+		// the writer-side name bound (C29's pattern, one implementation)
+		scratch := NewFacts("C29")
+		c29Writer(scratch, wr, ty)
+		fs.set("writerRejectsLongName", scratch.Lean["rejectsLongName"], scratch.Show["rejectsLongName"], scratch.Where["rejectsLongName"])
 		// ---- every path that buffers entries obeys the per-entry flush rule
 		c01BatchPaths(fs, wr, rd)
 	}})
@@ -395,7 +399,7 @@ func c01LoadIndex(fs *Facts, f *File) {
 		return
 	}
 	fs.Tri("deleteRemoves", TriOf(del), where)
-	fs.Tri("metadataIgnored", TriOf(metaClean), where)
+	fs.Tri("metadataIgnored", ShapeTri(metaClean), where)
 }
 
 // c01BatchPaths: WriteEntries must ask for a flush after every Add (flushLocked inside the range
@@ -496,7 +500,7 @@ func c01Chronicler(fs *Facts) {
 		strings.Contains(b, "ifisDeleted{") && strings.Contains(b, "Operation:v2.OpDelete,Key:key,Data:nil") &&
 		strings.Contains(b, "op:=v2.OpUpdateift.GetFileName()==nil{op=v2.OpInsert}") &&
 		strings.Contains(b, "Operation:op,Key:key,Data:data")
-	fs.Tri("chronOpChoice", TriOf(choice), where)
+	fs.Tri("chronOpChoice", ShapeTri(choice), where)
 	// the `if err := c.writer.WriteEntry(entry); err != nil { … }` block
 	cont, found := false, false
 	ast.Inspect(fd.Body, func(x ast.Node) bool {
@@ -524,17 +528,49 @@ func c01Chronicler(fs *Facts) {
 }
 
 // c01ApiValidation: the gateway refuses keys the format cannot carry before creating a treasure:
-// `func isValidKey(key string) bool { return key != "" && len(key) <= maxKeyLength }` with
-// maxKeyLength = 65535 / math.MaxUint16, used (negated, in an if that returns) by at least the twelve
-// key-creating RPCs.  No such function: `no`.  A function of another shape: `unknown`.
+// `func isValidKey(key string) bool { return key != "" && len(key) <= maxKeyLength }` with maxKeyLength =
+// 65535 / math.MaxUint16, and EVERY key-creating handler — listed by name — has an `if !isValidKey(…)`
+// guard.  One handler without it: `no` (that RPC acknowledges keys the writer will refuse).
+var c01KeyHandlers = []string{"Set", "IncrementInt8", "IncrementInt16", "IncrementInt32", "IncrementInt64", "IncrementUint8",
+	"IncrementUint16", "IncrementUint32", "IncrementUint64", "IncrementFloat32", "IncrementFloat64", "Uint32SlicePush",
+	"patchTreasuresOneSwamp"}
+
 func c01ApiValidation(fs *Facts) {
 	const gw = "app/server/gateway/gateway.go"
 	f, err := Load(gw)
 	if err != nil {
 		fs.Err("%v", err)
 		fs.Tri("apiValidatesKeys", Unknown, gw)
+		fs.Tri("apiBoundsNameLength", Unknown, gw)
 		return
 	}
+	// ---- swamp name length
+	if fd := f.Func("", "isValidSwampName"); fd == nil || fd.Body == nil {
+		fs.Tri("apiBoundsNameLength", Unknown, gw)
+	} else {
+		where := gw + ":" + itoa(f.Line(fd))
+		bounded, mentions := false, strings.Contains(f.Str(fd.Body), "len(swampName)")
+		for _, is := range c04Ifs(f, fd.Body) {
+			be, ok := is.Cond.(*ast.BinaryExpr)
+			if !ok || be.Op != token.GTR || strings.ReplaceAll(f.Str(be.X), " ", "") != "len(swampName)" || len(is.Body.List) != 1 {
+				continue
+			}
+			lim := f.Str(be.Y)
+			limOK := lim == "65535" || lim == "math.MaxUint16" || (lim == "maxSwampNameLength" && c01ConstIs(f, "maxSwampNameLength", "65535", "math.MaxUint16"))
+			if r, ok := is.Body.List[0].(*ast.ReturnStmt); ok && len(r.Results) == 1 && f.Str(r.Results[0]) == "false" && limOK {
+				bounded = true
+			}
+		}
+		switch {
+		case bounded:
+			fs.Tri("apiBoundsNameLength", Yes, where)
+		case !mentions:
+			fs.Tri("apiBoundsNameLength", No, where)
+		default:
+			fs.Tri("apiBoundsNameLength", Unknown, where)
+		}
+	}
+	// ---- keys
 	fd := f.Func("", "isValidKey")
 	if fd == nil {
 		fs.Tri("apiValidatesKeys", No, gw)
@@ -542,26 +578,43 @@ func c01ApiValidation(fs *Facts) {
 	}
 	where := gw + ":" + itoa(f.Line(fd))
 	body := strings.ReplaceAll(f.Str(fd.Body), " ", "")
-	shape := body == `{returnkey!=""&&len(key)<=maxKeyLength}` && (c01ConstIs(f, "maxKeyLength", "65535", "math.MaxUint16"))
-	uses := 0
-	for _, p := range []string{gw, "app/server/gateway/gateway_patch.go"} {
-		g, err := Load(p)
-		if err != nil {
-			continue
-		}
-		ast.Inspect(g.AST, func(x ast.Node) bool {
-			if is, ok := x.(*ast.IfStmt); ok && strings.HasPrefix(strings.ReplaceAll(g.Str(is.Cond), " ", ""), "!isValidKey(") {
-				uses++
-			}
-			return true
-		})
-	}
-	switch {
-	case shape && uses >= 12:
-		fs.Tri("apiValidatesKeys", Yes, where)
-	default:
+	if !(body == `{returnkey!=""&&len(key)<=maxKeyLength}` && c01ConstIs(f, "maxKeyLength", "65535", "math.MaxUint16")) {
 		fs.Tri("apiValidatesKeys", Unknown, where)
+		return
 	}
+	files := []*File{f}
+	if g, err := Load("app/server/gateway/gateway_patch.go"); err == nil {
+		files = append(files, g)
+	}
+	var missing []string
+	for _, h := range c01KeyHandlers {
+		guarded, found := false, false
+		for _, g := range files {
+			hd := g.Func("", h)
+			if hd == nil || hd.Body == nil {
+				continue
+			}
+			found = true
+			ast.Inspect(hd.Body, func(x ast.Node) bool {
+				if is, ok := x.(*ast.IfStmt); ok && strings.HasPrefix(strings.ReplaceAll(g.Str(is.Cond), " ", ""), "!isValidKey(") {
+					guarded = true
+				}
+				return true
+			})
+		}
+		if !found {
+			fs.Tri("apiValidatesKeys", Unknown, where+" (handler "+h+" not found)")
+			return
+		}
+		if !guarded {
+			missing = append(missing, h)
+		}
+	}
+	if len(missing) > 0 {
+		fs.Tri("apiValidatesKeys", No, where+" (no key check in: "+strings.Join(missing, ",")+")")
+		return
+	}
+	fs.Tri("apiValidatesKeys", Yes, where)
 }
 
 // c01OpenExisting: does openExistingFile cut a torn tail?  yes = a `for` loop reading block headers with
@@ -576,8 +629,15 @@ func c01OpenExisting(fs *Facts, f *File) {
 	where := c01Writer + ":" + itoa(f.Line(fd))
 	b := strings.ReplaceAll(f.Str(fd.Body), " ", "")
 	hasRead, hasTrunc := strings.Contains(b, "file.ReadAt("), strings.Contains(b, "file.Truncate(")
-	walk := strings.Contains(b, "file.ReadAt(bh,end)") &&
-		strings.Contains(b, "next:=end+BlockHeaderSize+int64(binary.LittleEndian.Uint32(bh[0:4]))") &&
+	// canonicalise the local buffer: whatever is passed to ReadAt is the one whose first four bytes are read
+	buf := ""
+	for _, c := range f.Calls(fd.Body, "file.ReadAt") {
+		if len(c.Args) == 2 && f.Str(c.Args[1]) == "end" {
+			buf = f.Str(c.Args[0])
+		}
+	}
+	walk := buf != "" &&
+		strings.Contains(b, "next:=end+BlockHeaderSize+int64(binary.LittleEndian.Uint32("+buf+"[0:4]))") &&
 		strings.Contains(b, "ifnext>info.Size(){break}") && strings.Contains(b, "ifend<info.Size(){iferr:=file.Truncate(end)")
 	switch {
 	case walk:
